@@ -22,6 +22,9 @@ pub enum Expect {
     /// precondition violated: no satisfying assignment exists (the honest
     /// generator may also return an error)
     Unsat,
+    /// the honest assignment must be unsatisfied, but other assignments of the
+    /// gadget's own witnesses may legitimately satisfy it (nothing returned)
+    UnsatHonest,
 }
 
 #[derive(Clone)]
@@ -37,11 +40,14 @@ pub struct GCase {
     pub bound2: bool,
     /// run the real prover for this case
     pub confirm: bool,
+    /// explore only every k-th allocation ordinal (plus the first and last 24);
+    /// 1 = all, 0 = no generic deviations at all
+    pub dev_stride: usize,
 }
 
 impl GCase {
     pub fn new(g: Gadget, expect: Expect, class: &str) -> Self {
-        GCase { g, expect, class: class.to_string(), extra: None, named: None, bound2: false, confirm: true }
+        GCase { g, expect, class: class.to_string(), extra: None, named: None, bound2: false, confirm: true, dev_stride: 1 }
     }
 }
 
@@ -96,7 +102,7 @@ pub fn run_case(c: &GCase, cache: &ConfirmCache) -> CaseReport {
         Err(e) => {
             rep.honest_state = "generator-error".into();
             match &c.expect {
-                Expect::Unsat if e.starts_with("error") => {}
+                Expect::Unsat | Expect::UnsatHonest if e.starts_with("error") => {}
                 _ => rep.violations.push((
                     format!("{}/honest-{}", c.class, if e.starts_with("panic") { "panic" } else { "error" }),
                     format!("{} inputs {:?}: honest generation failed: {}", c.g.name, inputs_json, e),
@@ -127,7 +133,7 @@ pub fn run_case(c: &GCase, cache: &ConfirmCache) -> CaseReport {
                 ));
             }
         }
-        Expect::Unsat => {
+        Expect::Unsat | Expect::UnsatHonest => {
             if hsat {
                 rep.violations.push((
                     format!("{}/honest-sat-despite-precondition", c.class),
@@ -147,6 +153,15 @@ pub fn run_case(c: &GCase, cache: &ConfirmCache) -> CaseReport {
         }
         None => bound1(&h, &noextra),
     };
+    if c.dev_stride == 0 {
+        devs.clear();
+    } else if c.dev_stride > 1 {
+        let (lo, hi, k) = (h.meta.lo, h.meta.hi, c.dev_stride);
+        devs.retain(|d| {
+            let o = d.script[0].0;
+            o < lo + 24 || o + 24 >= hi || (o - lo) % k == 0
+        });
+    }
     if let Some(n) = &c.named {
         devs.extend(n(&h));
     }
@@ -156,6 +171,8 @@ pub fn run_case(c: &GCase, cache: &ConfirmCache) -> CaseReport {
     let expected_outs: Option<Vec<Fe>> = match &c.expect {
         Expect::Sat(o) => Some(o.clone()),
         Expect::Unsat => None,
+        // deviations unconstrained: compare outputs with what they are
+        Expect::UnsatHonest => Some(h.outs.clone()),
     };
     let ex = explore(&c.g, &h, &devs, expected_outs.as_deref());
     rep.n_devs = ex.n_devs;
@@ -166,7 +183,7 @@ pub fn run_case(c: &GCase, cache: &ConfirmCache) -> CaseReport {
     for (d, outs) in ex.wrong_outputs.iter().take(3) {
         let sig = match &c.expect {
             Expect::Sat(_) => format!("{}/satisfiable-with-other-output", c.class),
-            Expect::Unsat => format!("{}/satisfiable-despite-precondition", c.class),
+            Expect::Unsat | Expect::UnsatHonest => format!("{}/satisfiable-despite-precondition", c.class),
         };
         let mut j = dev_json(&c.g, &h, d);
         j["outputs"] = json!(outs.iter().map(hex).collect::<Vec<_>>());
